@@ -604,14 +604,57 @@ Definition reach_line (args : list string) : string :=
   let missing := filter (fun s => exported_key (fst s) && negb (existsb (String.eqb (fst s)) args)) send_reach in
   join "," (map show_reach args ++ map (fun s => ("MISSING:" ++ fst s)%string) missing)%list.
 
+(* pool discipline census (harness/cmd/c07/census.go, `pool` case): every function of the library that touches
+   packet.EtherBufferPool, as dir:Receiver.Name:Gets/deferred Puts of a buffer it got/other Puts.  Model/SendPool.v
+   assumes what this table says: each of them takes one buffer and returns it exactly once, by a deferred Put, on
+   every path (sendDeclineReleasePacket holds its own while sendDHCP4Packet takes the second one). *)
+Definition send_pool : list string :=
+  [".:Session.arpRequest"; ".:Session.icmp4SendPacket"; ".:Session.icmp6SendPacket";
+   "handlers/arp_spoofer:Handler.RequestRaw"; "handlers/arp_spoofer:Handler.reply";
+   "handlers/dhcp4_spoofer:Handler.SendDiscoverPacket"; "handlers/dhcp4_spoofer:Handler.sendDeclineReleasePacket";
+   "handlers/dhcp4_spoofer:sendDHCP4Packet"; "handlers/dns_naming:DNSHandler.SendSSDPSearch";
+   "handlers/dns_naming:DNSHandler.sendNBNS"].
+Definition pool_line (args : list string) : string :=
+  let want := map (fun k => (k ++ ":1/1/0")%string) send_pool in
+  join "," (map (fun t => if existsb (String.eqb t) want then t else ("UNMODELLED:" ++ t)%string) args
+            ++ map (fun t => ("MISSING:" ++ t)%string) (filter (fun t => negb (existsb (String.eqb t) args)) want))%list.
+
+Fixpoint split_steps (toks cur : list string) : list (list string) :=
+  match toks with
+  | [] => [rev cur]
+  | t :: r => if String.eqb t "|" then rev cur :: split_steps r [] else split_steps r (t :: cur)
+  end.
+
+Definition dispatch_one (k : string) (args : list string) : string :=
+  match parse_cfg args with
+  | Some (c, rest) =>
+      with_adm (adm_of k c (filter (fun t => negb (String.prefix "scn:" t)) rest)) k (dispatch k args)
+  | None => dispatch k args
+  end.
+
+(* seq: cases run one after the other on the same buffer pool; the model is stateless across sends
+   (C07_send_independent_of_history), so the expected observation is that of each step on its own *)
+Definition seq_line (args : list string) : string :=
+  let outs := map (fun st => match st with
+                             | k :: a => match Text.split (ascii_of_N 9) (dispatch_one k a) with
+                                         | [m; sp; key] => (m, sp, key)
+                                         | _ => (BADARGS, "-", "-")
+                                         end
+                             | [] => (BADARGS, "-", "-")
+                             end) (split_steps args []) in
+  let ms := map (fun o => fst (fst o)) outs in
+  let sps := map (fun o => if String.eqb (snd (fst o)) "-" then fst (fst o) else snd (fst o)) outs in
+  let keys := filter (fun k => negb (String.eqb k "-")) (map snd outs) in
+  out3 (join ";" ms)
+       (if forallb (fun o => String.eqb (snd (fst o)) "-") outs then "-" else join ";" sps)
+       (match keys with k :: _ => k | [] => "-" end).
+
 Definition dispatch_line (l : string) : string :=
   match words l with
   | k :: args => if String.eqb k "sites" then out3 (join "," (map show_site args)) "-" "-"
+                 else if String.eqb k "pool" then out3 (pool_line args) "-" "-"
+                 else if String.eqb k "seq" then seq_line args
                  else if String.eqb k "reach" then out3 (reach_line args) "-" "-"
-                 else match parse_cfg args with
-                      | Some (c, rest) =>
-                          with_adm (adm_of k c (filter (fun t => negb (String.prefix "scn:" t)) rest)) k (dispatch k args)
-                      | None => dispatch k args
-                      end
+                 else dispatch_one k args
   | [] => BADARGS
   end.
